@@ -90,6 +90,19 @@ func crashOracle(s *Spec, probes [][]byte, stats *crashStats, crashOps func(w *W
 		if w0.VS == nil {
 			return nil
 		}
+		if len(hist) > 0 && hist[len(hist)-1].Kind == OpSave {
+			// import commits of the retained versions (into a fresh store)
+			wI, v := replay(s, hist)
+			if v == nil {
+				vv := importCrashCuts(s, wI, hist, probes, stats)
+				wI.Close()
+				if vv != nil {
+					return vv
+				}
+			} else {
+				wI.Close()
+			}
+		}
 		ops := crashOps(w0)
 		for _, op := range ops {
 			wA, v := replay(s, hist)
@@ -395,7 +408,7 @@ func init() {
 			"fault model of the statement: each underlying batch write is atomic and ordered; cuts are placed between consecutive physical writes (cut 0 = nothing written, cut m = everything written)",
 			"for DeleteVersionsTo(n) spanning several versions an image equal to the crash-free result of DeleteVersionsTo(j), first <= j < n, is accepted as well (the statement's second sentence protects only the versions the operation was not deleting)",
 			"repeating a commit means re-applying the uncommitted writes of the interrupted block and calling SaveVersion again",
-			"import commits are checked by C10/C17, not here",
+			"import commits: for every state reached by a SaveVersion, the export stream of every retained version is imported into an empty recording store and every cut of its physical writes is reopened (must be the empty store or the imported version; repeating the import must succeed)",
 		}
 		return r
 	}
